@@ -12,7 +12,7 @@
 From Coq Require Import ZArith QArith Qabs Bool List Ascii String Lia.
 From DC Require Import Model.Base Model.Loc Model.Bio Model.Pattern Model.MSpace Model.Specs
                        Generated.GenTables Proofs.SpecsDefs Proofs.BioA Proofs.MSpaceDefs Proofs.SpecsCodon
-                       Model.Solver Proofs.SolverB Proofs.SolverC Proofs.SolverE Proofs.Builtins Proofs.CaiEnd Proofs.CaiFull.
+                       Model.Solver Proofs.SolverB Proofs.SolverC Proofs.SolverE Proofs.Builtins Proofs.CaiEnd Proofs.CaiFull Proofs.CaiFullRev.
 Import ListNotations.
 Open Scope Z_scope.
 
@@ -171,7 +171,7 @@ Print Assumptions C07_cai_optimize_reaches_every_codon_best_partial.
    randomization threshold above 64.  For every usable starting state and every configuration,
    optimize() returns, the sequence still encodes the same protein, EVERY codon is a most-frequent
    synonym, the length is unchanged and no nucleotide outside the region is touched.
-   (Reverse strand, start-codon policies, HarmonizeRCA: differential run.) *)
+   (The reverse strand is the next theorem; start-codon policies and HarmonizeRCA: differential run.) *)
 Theorem C07_cai_optimize_end_to_end :
   forall (name : string) (T : gtable) (lf lb : list (dna * Q)) (l : loc) (tr : astr) (s0 : dna)
          (cfg : settings) (passive : Specs.spec -> bool) st o st',
@@ -193,6 +193,29 @@ Theorem C07_cai_optimize_end_to_end :
        nth_error (cur _ st') (Z.to_nat i) = nth_error (cur _ st) (Z.to_nat i)).
 Proof. exact cai_optimize_end_to_end. Qed.
 Print Assumptions C07_cai_optimize_end_to_end.
+
+(* the same on the REVERSE strand *)
+Theorem C07_cai_optimize_end_to_end_reverse_strand :
+  forall (name : string) (T : gtable) (lf lb : list (dna * Q)) (l : loc) (tr : astr) (s0 : dna)
+         (cfg : settings) (passive : Specs.spec -> bool) st o st',
+    In (name, T) genetic_tables -> no_dual_stop T = true ->
+    wf_spec (SMaximizeCAI lf lb l) (zlen s0) -> lstrand l = -1 ->
+    loc_len l = 3 * zlen tr -> 1 <= zlen tr ->
+    tables_consistent T lf lb ->
+    64 < st_threshold cfg ->
+    let space := from_constraints s0 (restrict_nucleotides (STranslation T l tr StartNone) false s0) in
+    passive (SMaximizeCAI lf lb l) = false ->
+    state_good Specs.spec space (zlen s0) st ->
+    optimize Specs.spec b_ev Specs.localized b_reinit tr_enforced (fun _ => Some 0%Q) b_boost passive (fun _ => None)
+             cfg space [STranslation T l tr StartNone] [SMaximizeCAI lf lb l] st = (o, st') ->
+    o = ODone /\
+    translate T (extract l (cur _ st')) = Some tr /\
+    (forall i, 0 <= i < loc_len l / 3 -> codon_best lf lb l (cur _ st') i) /\
+    zlen (cur _ st') = zlen s0 /\
+    (forall i, 0 <= i -> ~ (lstart l <= i < lend l) ->
+       nth_error (cur _ st') (Z.to_nat i) = nth_error (cur _ st) (Z.to_nat i)).
+Proof. exact cai_optimize_end_to_end_reverse_strand. Qed.
+Print Assumptions C07_cai_optimize_end_to_end_reverse_strand.
 
 (* the mutation-space hypothesis is satisfiable: a one-codon gene CTC whose space offers CTC / CTG,
    with CTG the most frequent synonym *)
